@@ -28,6 +28,15 @@ def calls(rnd):
     for o in inst[:12] + [o for o in inst if o[0] == 9]:
         C.append(dict(op="get", oids=[o]))
     C.append(dict(op="walk", oids=[[9]]))
+    # walks rooted at an OID that is itself an instance (the raw walk yields nothing), incl. the last instance of the view
+    C.append(dict(op="walk", oids=[[1, 1, 0]]))
+    C.append(dict(op="walk", oids=[[9, 8, 0]]))
+    C.append(dict(op="multiwalk", oids=[[1, 5, 0], [2]]))
+    C.append(dict(op="bulkwalk", oids=[[1, 3, 0]], bulk=3))
+    # scalars at / behind the end of the view (endOfMibView among the non-repeaters)
+    C.append(dict(op="bulkget", oids=[[99], [1]], nr=1, bulk=2))
+    C.append(dict(op="bulkget", oids=[[9, 8, 0], [99, 1], [2]], nr=2, bulk=2))
+    C.append(dict(op="getnext", oids=[[9, 7]]))
     C.append(dict(op="multiget", oids=[o for o in inst if o[0] == 9]))
     C.append(dict(op="bulkwalk", oids=[[9], [8]], bulk=4))
     C.append(dict(op="table", oids=[[8, 2, 1]]))
@@ -85,7 +94,7 @@ def run(ctx):
     ctx.judge(E, verdicts, signature=lambda tr, v: dict(op=tr["events"][0]["op"]), nontrivial=lambda tr, v: tr["events"][0]["got"] + tr["events"][0]["op"] if not tr["events"][0]["raw_failed"] else None)
     ctx.rule = ("every wrapper operation (get, getnext, multiget, set, multiset, walk, multiwalk, bulkwalk, bulkget, table, bulktable) next to the raw operation for "
                 "the same exchange, on a database with every SNMP value type (a NULL-typed object in the middle of a subtree, OID / Counter64 values with "
-                "identical content octets, an empty bulk listing, bulkget with several repeaters, a table with mixed types, a sparse table whose later rows have "
+                "identical content octets, an empty bulk listing, scalars behind the end of the view, walks rooted at an instance, bulkget with several repeaters, a table with mixed types, a sparse table whose later rows have "
                 "columns the first row lacks, Opaque / OCTET STRING values whose content is itself well-formed BER), in seeded call orders on one wrapper, over v1/v2c/v3; "
                 "distinct = distinct (operation, result)")
     ctx.assumptions = ["PyVarBind (a tuple subclass) and BulkResult (the documented container) are containers, not leaves",
